@@ -15,13 +15,14 @@ def http_scenarios(quick):
     scripts = [
         [R(200)], [R(200, mode="streamed")], [R(503, 2), R(200)], [R(429, 1), R(500), R(200, mode="streamed")], [R(500), R(500), R(500)],
         [R(501), R(200)], [R(404)], [R(err="conn"), R(200)], [R(503, 3), R(502), R(200)], [R(400), R(200)], [R(429, 0), R(201)],
+        [R(503, 1, mode="early"), R(200)], [R(429, 2, mode="early"), R(503, mode="early"), R(200)],
     ]
     bodies = [("none", 0), ("buffer", 1), ("buffer", 4096), ("reader", 17), ("seeker", 300), ("stream", 65536), ("stream", 5), ("empty", 0)]
     rctxs = ["background", "todo", "cancellable", "values", "deadline"]
-    pols = [["retry"], ["retry", "timeout"], ["timeout", "retry"], ["retry", "hedge"], ["breaker", "retry"], ["fallback", "retry", "timeout"], []]
+    pols = [["retry"], ["retry", "timeout"], ["timeout", "retry"], ["retry", "hedge"], ["breaker", "retry"], ["fallback", "retry", "timeout"], [], ["retrybo"]]
     combos = list(itertools.product(range(len(scripts)), range(len(bodies)), rctxs, range(len(pols)), ["none", "values"], ["roundtripper", "request"]))
     if quick:
-        combos = combos[::9]
+        combos = combos[::11]
     for si, bi, rc, pi, ec, via in combos:
         if not pols[pi] and len(scripts[si]) > 1:
             continue
@@ -57,7 +58,7 @@ def seek_reuse(sc, tr):
         else:
             break
     got = sum(1 for x in tr if x["ev"] == "Req")
-    return "retry" in sc["policies"] and 1 < got < want
+    return ("retry" in sc["policies"] or "retrybo" in sc["policies"]) and 1 < got < want
 
 
 def run_http(ctx, only_leaks=False):
